@@ -21,6 +21,34 @@ CHECKS = {
                    "a seeded 25% (and always n=K) re-deliver the whole world and compare with the uninterrupted result (R4)"),
              assumptions=_CHAINSIM_ASSUME + ["crash granularity is the database commit (memdb): the store itself is assumed atomic and prefix-durable, which is property C05's subject; crashes inside ffldb's own commit protocol are exercised by storesim"],
              quick=dict(runs=40, budget=90), thorough=dict(budget=900), det_runs=30),
+ "C18": dict(engine="peersim", race=True, level="exploration",
+             rule=("one run = one real peer.Peer (inbound or outbound, seeded protocol version / services / AllowSelfConns / stall handler / trickle interval / network) on a harness-owned connection against a scripted remote "
+                   "(clean handshake, refusal candidates: self connection, obsolete version, non-version first message, wrong magic, application/duplicate/malformed message before the verack; post-handshake violations; message soup; silent remote), "
+                   "delivered in seeded chunks (whole messages, 1 byte, 1-16, 1-200 bytes) with simulated delays that straddle the negotiate/idle/stall/ping timers, bounded write buffer with a stalled remote, listeners that block for simulated time, "
+                   "1-6 application goroutines issuing QueueMessage (unique payloads, buffered done channels) / QueueInventory / Disconnect before, during and after the handshake, one external event per quiescent point (event-stepped), "
+                   "in yield mode a goroutine parked at one of 7 guarded yield sites inside the peer across later events, in burst mode several callers released from one gate; every run ends with a disconnect (Disconnect(), remote close/reset, timeout, protocol error) and 5 simulated minutes of grace. "
+                   "non-trivial = (handshake completed and at least one message queued and a disconnect happened) or a refusal case was judged; "
+                   "distinct = hash of (direction, caller count, chunk mode, yield/burst mode, script shape, refusal reason, disconnect cause, handshake completed, model phase, fault kinds that fired)"),
+             assumptions=[
+              "the remote endpoint is a byte script built with the harness's own 24-byte-header framing (version payloads are encoded with wire.MsgVersion.BtcEncode); what the peer writes is split and judged with the harness's own parser and encoders",
+              "the connection is the stub simconn (buffered duplex, *net.TCPAddr addresses, harness-decided chunking, optional bounded write buffer, close wakes blocked calls); deadlines are not modelled (peer does not use them)",
+              "'queued before the disconnect' is judged by logical stamps taken by the calling goroutines: a QueueMessage call counts only if it returned before Disconnect was invoked, or before the event step in which the harness first saw the peer disconnecting",
+              "handshake classification is the harness's own model; ambiguous remotes (unknown command with bad checksum, sendaddrv2 below protocol 70016, OnVersion rejecting, negative protocol versions are not generated) are not judged for refusal or liveness",
+              "burst steps (caller order decided by the runtime) are not replayable and are switched off in the determinism self-test, as are two ties: block inventory queued before the handshake completes, and input backlogs built while the peer is not reading",
+              "the v2 (BIP324) transport of peer is not used (UsingV2Conn=false); that is C19's subject",
+             ],
+             cpus=2, quick=dict(runs=1500, budget=60), thorough=dict(budget=900), det_runs=60),
+ "C09": dict(engine="chainsim", race=False, level="exploration", cpus=2,
+             rule=(_CHAINSIM_RULE + "; retarget profile: synthetic difficulty parameters (retarget interval 3-12 blocks, factor 2-4, min-difficulty rule, BIP94, no-retarget, lowered pow limits, "
+                   "subsidy intervals 1-150), timestamps steered to the clamps / min-difficulty / BIP94 / MTP edges, headers and blocks delivered under an advancing, skewed clock"),
+             assumptions=_CHAINSIM_ASSUME + ["decides the header-history x parameter-set x clock facet of C09; the clauses quantified over every isolated 32-bit compact value / 256-bit target are reached only for values occurring in generated histories and mutated headers"],
+             quick=dict(runs=200, budget=60), thorough=dict(budget=900), det_runs=30),
+ "C17": dict(engine="chainsim", race=False, level="exploration", cpus=2,
+             rule=(_CHAINSIM_RULE + "; headers profile: interleaved header and block deliveries of the same tree (headers only, headers then blocks, blocks only, orphan headers, headers of invalid blocks), "
+                   "with batches of index queries (locators, locate blocks/headers with empty / genuine / side-chain / unknown locators and stop hashes, height ranges, interval hashes, best-header views) "
+                   "compared with naive parent-link walks"),
+             assumptions=_CHAINSIM_ASSUME + ["query arguments for which the API states no contract (interval 0, max 0) are not generated; best-header is judged for headers accepted through header delivery within one node instance"],
+             quick=dict(runs=150, budget=60), thorough=dict(budget=900), det_runs=30),
  "C19": dict(engine="v2sim", race=False, level="exploration",
              rule=("one run = one BIP324 session between two endpoints over a harness-owned byte stream: mode (M1 real<->real, M2 real<->reference endpoint bip324ref with the real side in either role, "
                    "M3rr adversary between two real peers, M3ref adversary / misbehaving reference against a real peer), network magic, garbage length per side (weighted to 0,1,15,16,17,4094,4095), "
